@@ -27,6 +27,9 @@ VARIANTS = {
     "ts-plain": ([], "gcc", "-g -O2"),
     "nts-plain": (["--disable-thread-safety"], "gcc", "-g -O2"),
     "ts-tsan": ([], "gcc", "-g -O1 -fsanitize=thread -fno-omit-frame-pointer"),
+    "fuzz-nts": (["--disable-thread-safety"], "clang",
+                 "-g -O1 -fsanitize=fuzzer-no-link,address,undefined "
+                 "-fno-sanitize-recover=undefined -fno-omit-frame-pointer"),
     "fuzz": ([], "clang",
              "-g -O1 -fsanitize=fuzzer-no-link,address,undefined "
              "-fno-sanitize-recover=undefined -fno-omit-frame-pointer"),
